@@ -149,7 +149,13 @@ fn add_directional_downcast<const ABOVE: bool>(
         (validate_lt, validate_ge)
     };
     casm_build_extend!(casm_builder, jump Success if is_valid != 0;);
+    let prev = casm_builder.curr_ap_change();
     validate_out_of_range(casm_builder, range_check, value, bound);
+    if !ABOVE && prev == casm_builder.curr_ap_change() {
+        // For `bound == 2**128`, `validate_lt` needs no temporary variable, but the declared ap
+        // change and cost of the failure branch count it.
+        casm_build_extend!(casm_builder, ap += 1;);
+    }
     casm_build_extend! {casm_builder,
         jump Failure;
         Success:
@@ -207,7 +213,13 @@ fn add_downcast_overflow_both(
 
     casm_build_extend!(casm_builder, Success:);
     validate_ge(casm_builder, range_check, value, &to_range.lower);
+    let prev = casm_builder.curr_ap_change();
     validate_lt(casm_builder, range_check, value, &to_range.upper);
+    if prev == casm_builder.curr_ap_change() {
+        // For `to_range.upper == 2**128`, `validate_lt` needs no temporary variable, but the
+        // declared ap change and cost of the success branch count it.
+        casm_build_extend!(casm_builder, ap += 1;);
+    }
 }
 
 /// Validates that `value` is smaller than `bound`.
